@@ -150,8 +150,9 @@ def same_outputs(a, b):
             if x != y:
                 return False
             continue
-        if len(x) != len(y) or any(not ((math.isnan(p) and math.isnan(q)) or p == q) for p, q in zip(x, y)):
-            return False
+        if len(x) != len(y) or any(not ((math.isnan(p) and math.isnan(q)) or
+                                        (p == q and math.copysign(1.0, p) == math.copysign(1.0, q))) for p, q in zip(x, y)):
+            return False  # bit-identical: also the sign of a zero
     return True
 
 
@@ -299,17 +300,17 @@ def any_activation(draw, rg="half"):
         return None
     thr = st.sampled_from(THRESHOLDS[rg])
     if cls in ("First", "Last"):
-        return {"cls": cls, "rules": draw(st.integers(0, 5)), "threshold": draw(thr)}
+        return {"cls": cls, "rules": draw(st.sampled_from([0, 1, 2, 3, 5, 12, 100])), "threshold": draw(thr)}
     if cls in ("Highest", "Lowest"):
-        return {"cls": cls, "rules": draw(st.integers(0, 5))}
+        return {"cls": cls, "rules": draw(st.sampled_from([0, 1, 2, 3, 5, 12, 100]))}
     if cls == "Threshold":
         return {"cls": cls, "comparator": draw(st.sampled_from(["<", "<=", "==", "!=", ">=", ">"])),
                 "threshold": draw(thr)}
     return {"cls": cls}
 
 
-UNICODE_TERMS = ["élevée", "niño", "größe", "Δt", "температура", "basse_é"]
-UNICODE_VARS = ["température", "Größe", "скорость"]
+UNICODE_TERMS = ["élevée", "niño", "größe", "Δt", "температура", "basse_é", "pass", "class", "in", "for", "lambda"]
+UNICODE_VARS = ["température", "Größe", "скорость", "global", "return", "as"]
 
 
 def _walk_props(a):
